@@ -287,6 +287,23 @@ class Origins:
                 out |= self.ev(x, r, local)
             return out
         if isinstance(e, (ast.GeneratorExp, ast.ListComp, ast.SetComp)):
+            if len(e.generators) == 1:
+                g0 = e.generators[0]
+                items = unroll_items(ast.For(target=g0.target, iter=g0.iter, body=[], orelse=[]), r.fi.node, r.fi.params)
+                if items is not None:
+                    # a comprehension over a literal tuple (of tuples): the union over its unrolled iterations
+                    out = set()
+                    for elt in items:
+                        loc = dict(local)
+                        if isinstance(g0.target, ast.Name):
+                            loc[g0.target.id] = self.ev(elt, r, local)
+                        elif isinstance(g0.target, (ast.Tuple, ast.List)) and isinstance(elt, (ast.Tuple, ast.List)) \
+                                and len(elt.elts) == len(g0.target.elts):
+                            for t, v in zip(g0.target.elts, elt.elts):
+                                if isinstance(t, ast.Name):
+                                    loc[t.id] = self.ev(v, r, local)
+                        out |= self.ev(e.elt, r, loc)
+                    return out
             loc = dict(local)
             for g in e.generators:
                 if isinstance(g.target, ast.Name):
